@@ -933,6 +933,22 @@ def m_join(ex, st, args, kwargs, node):
     return [(st, VStr(r))]
 
 
+def m_split(ex, st, args, kwargs, node):
+    """ASSUMED model of str.split() WITHOUT arguments on a symbolic string v (WS-CLASS): the words of v as a str list of symbolic
+    length -- their concatenation is v with the whitespace erased, their blank-prefixed sq-images are ' ' + trim(sq(v)),
+    and there is no word exactly when v is blank.  Any other form of split keeps the engine's default (an unknown value)."""
+    if len(args) != 1 or kwargs or not isinstance(args[0], VStr):
+        return [(st, VUnk("str.split"))]
+    v = args[0].t
+    n = z3.Int(fresh_name("words.len"))
+    lead = z3.String(fresh_name("words.lead"))
+    st.assume(z3.And(n >= 0, (n == 0) == (NW(v) == lit("")), z3.Implies(n == 0, lead == lit("")),
+                     z3.Implies(n > 0, lead == SQ_cat(lit(" "), T.trim(SQ(v))))))
+    for f in T.strip_facts(v):
+        st.assume(f)
+    return [(st, mk_slist(ex, st, n, NW(v), lead, fresh=True))]
+
+
 def m_regex_sub(fn, repl):
     def model(ex, st, obj, args, kwargs, node):
         if len(args) != 2 or not isinstance(args[0], VStr) or args[0].const() != repl or not isinstance(args[1], VStr):
@@ -948,6 +964,7 @@ def install(reg):
     reg.ext_models["str.rjust"] = m_just(T.RJUST)
     reg.ext_models["str.ljust"] = m_just(T.LJUST)
     reg.ext_models["str.join"] = m_join
+    reg.ext_models["str.split"] = m_split
     reg.ext_models[("havoc-heap", "slist")] = havoc_slist
     reg.method_models[("RegexWS", "sub")] = m_regex_sub(T.WSSUB, " ")
 
@@ -957,6 +974,8 @@ ASSUMED_MODELS = ET.ASSUMED + [
     "sq(strip x) == trim(sq x), sq(ws_sub x) == sq(x) are used (contracts/c02_text.py)",
     "str.join over a str list of symbolic length: sep == '' -> exact concatenation; whitespace sep -> fresh R with nw(R) == nw(''.join) "
     "and ' ' + sq(R) == the blank-prefixed sq-images of the items ('' for the empty list)",
+    "str.split() without arguments: the words as a str list of symbolic length with ''.join == nw(v), blank-prefixed sq-images == ' ' + trim(sq(v)), "
+    "no word iff v is blank (WS-CLASS); used to verify epub _normalize_ws",
     "int(str): raises ValueError iff not int_parses(s), else int_value(s); int('1') == 1",
     "str * n for symbolic n: '' if n <= 0 else str_repeat(s, n)",
     "set[str] parameters: membership only; the empty set is unique (extensionality), so `s or set()` == s",
